@@ -3,6 +3,7 @@ package worker
 import (
 	"encoding/json"
 	"fmt"
+	"os"
 	"reflect"
 	"sort"
 	"unsafe"
@@ -139,8 +140,12 @@ func sweepDoc(t reflect.Type) []string {
 	return []string{`null`, `0`}
 }
 
-// sweepOne processes one type: Marshal(zero), Marshal(&zero), Unmarshal(docs).
-func sweepOne(t reflect.Type) (obs []string) {
+// sweepPhase processes one phase for one type: phase 0 and 2 encode
+// (Marshal(zero), Marshal(&zero)), phase 1 decodes. A sweep runs either all
+// phases per type, or phase by phase over all types ("phased": many types are
+// encoded before the first decode happens and again afterwards); the cold
+// reference of a type is the same three phases on that type alone.
+func sweepPhase(t reflect.Type, phase int) (obs []string) {
 	step := func(name string, f func() string) {
 		defer func() {
 			if r := recover(); r != nil {
@@ -149,14 +154,17 @@ func sweepOne(t reflect.Type) (obs []string) {
 		}()
 		obs = append(obs, name+" "+f())
 	}
-	step("marshal", func() string {
-		b, err := gojson.Marshal(reflect.Zero(t).Interface())
-		return fmt.Sprintf("err=%q out=%s", normErr(err), short(b))
-	})
-	step("marshal_ptr", func() string {
-		b, err := gojson.Marshal(reflect.New(t).Interface())
-		return fmt.Sprintf("err=%q out=%s", normErr(err), short(b))
-	})
+	if phase == 0 || phase == 2 {
+		step("marshal", func() string {
+			b, err := gojson.Marshal(reflect.Zero(t).Interface())
+			return fmt.Sprintf("err=%q out=%s", normErr(err), short(b))
+		})
+		step("marshal_ptr", func() string {
+			b, err := gojson.Marshal(reflect.New(t).Interface())
+			return fmt.Sprintf("err=%q out=%s", normErr(err), short(b))
+		})
+		return obs
+	}
 	for _, d := range sweepDoc(t) {
 		d := d
 		step("unmarshal "+d, func() string {
@@ -168,12 +176,42 @@ func sweepOne(t reflect.Type) (obs []string) {
 	return obs
 }
 
+func sweepOne(t reflect.Type) (obs []string) {
+	for ph := 0; ph < 3; ph++ {
+		obs = append(obs, sweepPhase(t, ph)...)
+	}
+	return obs
+}
+
 // reflect-created types: descriptors on the heap (fallback map path).
+// ballast moves the heap forward between the creations of run-time types, so
+// that their descriptors land at varied distances from the start of the heap
+// (property C14: "wherever their descriptors happen to be placed in memory").
+var ballast [][]byte
+var ballastSmall []interface{}
+
+func pushHeap(r *plan.Rng) {
+	ballast = append(ballast, make([]byte, r.Range(1<<12, 1<<17)))
+	// use up the partly filled spans of the small size classes, so that the
+	// next descriptor comes from a fresh span behind the ballast
+	// (run-time type descriptors contain pointers: the pointer-bearing span
+	// classes are the ones that matter, pointer-free ones are used up as well)
+	for _, words := range []int{4, 6, 8, 10, 12, 14, 16, 18, 20, 22, 24, 26, 28, 30, 32, 36, 40, 44, 48, 52, 56, 60, 64} {
+		n := 8192/(words*8) + 2
+		for i := 0; i < n; i++ {
+			ballastSmall = append(ballastSmall, make([]*byte, words))
+		}
+	}
+}
+
 func reflectTypes(n int, seed uint64) []reflect.Type {
 	r := plan.NewRng(seed)
 	base := []reflect.Type{reflect.TypeOf(0), reflect.TypeOf(""), reflect.TypeOf(true), reflect.TypeOf(1.5), reflect.TypeOf(Small{}), reflect.TypeOf([]int(nil)), reflect.TypeOf(Leaf{})}
 	var out []reflect.Type
 	for i := 0; i < n; i++ {
+		if i > 0 {
+			pushHeap(r)
+		}
 		b := base[r.Intn(len(base))]
 		switch r.Intn(5) {
 		case 0:
@@ -232,6 +270,14 @@ func execSweep(p *plan.Plan, res *plan.Result) {
 		}
 	}
 	rts := reflectTypes(sw.Reflect, sw.Seed^0xABCD)
+	if os.Getenv("VERIF_DEBUG_ADDR") != "" {
+		for i, rt := range rts {
+			var y interface{} = reflect.Zero(rt).Interface()
+			fmt.Fprintf(os.Stderr, "reflect type %d at %#x\n", i, uintptr((*eface)(unsafe.Pointer(&y)).typ))
+		}
+		ts := loadSweepTypes()
+		fmt.Fprintf(os.Stderr, "table %#x .. %#x\n", ts[0].Addr, ts[len(ts)-1].Addr)
+	}
 	for _, i := range sw.OnlyR {
 		if i >= 0 && i < len(rts) {
 			res.Obs[fmt.Sprintf("r%d:%s", i, rts[i].String())] = sweepOne(rts[i])
@@ -245,20 +291,42 @@ func execSweep(p *plan.Plan, res *plan.Result) {
 		rstep = len(order)/len(rts) + 1
 	}
 	ri := 0
-	for k, idx := range order {
-		if idx < 0 || idx >= len(types) || excl[idx] {
-			continue
+	if sw.Phased && len(sw.Only) == 0 {
+		for ph := 0; ph < 3; ph++ {
+			for i, rt := range rts {
+				key := fmt.Sprintf("r%d:%s", i, rt.String())
+				res.Obs[key] = append(res.Obs[key], sweepPhase(rt, ph)...)
+			}
+			for _, idx := range order {
+				if idx < 0 || idx >= len(types) || excl[idx] {
+					continue
+				}
+				key := fmt.Sprintf("t%d", idx)
+				if ph == 0 {
+					res.Obs[key] = []string{types[idx].T.String()}
+					res.Cases++
+				}
+				res.Obs[key] = append(res.Obs[key], sweepPhase(types[idx].T, ph)...)
+				res.Steps += 2
+			}
 		}
-		if rstep > 0 && k%rstep == 0 && ri < len(rts) {
-			// reflect-created type in between: observations keyed by its shape
-			rt := rts[ri]
-			res.Obs[fmt.Sprintf("r%d:%s", ri, rt.String())] = sweepOne(rt)
-			ri++
-			Probe("reflect_type")
+		Probe("phased_sweep")
+	} else {
+		for k, idx := range order {
+			if idx < 0 || idx >= len(types) || excl[idx] {
+				continue
+			}
+			if rstep > 0 && k%rstep == 0 && ri < len(rts) {
+				// reflect-created type in between: observations keyed by its shape
+				rt := rts[ri]
+				res.Obs[fmt.Sprintf("r%d:%s", ri, rt.String())] = sweepOne(rt)
+				ri++
+				Probe("reflect_type")
+			}
+			res.Obs[fmt.Sprintf("t%d", idx)] = append([]string{types[idx].T.String()}, sweepOne(types[idx].T)...)
+			res.Cases++
+			res.Steps += 6
 		}
-		res.Obs[fmt.Sprintf("t%d", idx)] = append([]string{types[idx].T.String()}, sweepOne(types[idx].T)...)
-		res.Cases++
-		res.Steps += 4
 	}
 	for _, v := range verifsim.IdentityViolations() {
 		res.Violations = append(res.Violations, plan.Violation{Oracle: "identity", Where: "cache entry point", Sig: "identity|" + v.Kind, Detail: v.Text})
